@@ -35,7 +35,8 @@ def padded_headers(base: List[Tuple[bytes, bytes]], target: int, name: bytes = b
 
 
 class RogueH2:
-    def __init__(self, ack_settings: bool = False, upgrade: bool = False) -> None:
+    def __init__(self, ack_settings: bool = False, upgrade: bool = False, enable_push: Optional[bool] = None,
+                 max_streams: Optional[int] = None) -> None:
         self.tx = h2.connection.H2Connection(config=h2.config.H2Configuration(
             client_side=True, header_encoding=None, validate_outbound_headers=False, normalize_outbound_headers=False))
         self.tx.local_settings.update({h2.settings.SettingCodes.ENABLE_PUSH: 0})
@@ -43,6 +44,16 @@ class RogueH2:
             self.tx.initiate_upgrade_connection()
         else:
             self.tx.initiate_connection()
+        # what this client tells the server about server push (a second SETTINGS frame; `None`: h2's client defaults, i.e.
+        # ENABLE_PUSH = 1 and MAX_CONCURRENT_STREAMS = 100 - the `local_settings.update` above is never acknowledged and so never sent)
+        more = {}
+        if enable_push is not None:
+            more[h2.settings.SettingCodes.ENABLE_PUSH] = int(enable_push)
+        if max_streams is not None:
+            more[h2.settings.SettingCodes.MAX_CONCURRENT_STREAMS] = int(max_streams)
+        if more:
+            self.tx.update_settings(more)
+        self.promises: List[dict] = []               # every PUSH_PROMISE: parent stream, promised stream, request header list
         self.ack_settings = ack_settings
         self._extra = b""
         self.buf = b""
@@ -95,12 +106,20 @@ class RogueH2:
                     ack = F.SettingsFrame(0)
                     ack.flags.add("ACK")
                     self._extra += ack.serialize()
-        elif isinstance(f, (F.HeadersFrame, F.ContinuationFrame)):
+        elif isinstance(f, (F.HeadersFrame, F.ContinuationFrame, F.PushPromiseFrame)):
             if isinstance(f, F.HeadersFrame):
                 self._hdr = [f.stream_id, b"", "END_STREAM" in f.flags]
+            elif isinstance(f, F.PushPromiseFrame):
+                self._hdr = [f.stream_id, b"", False, int(f.promised_stream_id)]
             if self._hdr is not None:
                 self._hdr[1] += f.data
-                if "END_HEADERS" in f.flags:
+                if "END_HEADERS" in f.flags and len(self._hdr) > 3:
+                    # the header block of a PUSH_PROMISE is the promised REQUEST (it goes through the same HPACK state)
+                    hs = self.dec.decode(self._hdr[1], raw=True)
+                    self.promises.append({"parent": int(self._hdr[0]), "promised": self._hdr[3], "headers": [[bytes(n), bytes(v)] for n, v in hs],
+                                          "at_frame": len(self.frames)})
+                    self._hdr = None
+                elif "END_HEADERS" in f.flags:
                     hs = self.dec.decode(self._hdr[1], raw=True)
                     s = self._st(self._hdr[0])
                     for n, v in hs:
@@ -122,4 +141,6 @@ class RogueH2:
 
     def summary(self) -> dict:
         return {"streams": {str(k): v for k, v in self.streams.items()}, "goaways": self.goaways, "settings": {str(k): v for k, v in self.settings.items()},
-                "parse_error": self.parse_error}
+                "parse_error": self.parse_error,
+                "promises": [{"parent": p["parent"], "promised": p["promised"], "headers": [[n.decode("latin1"), v.decode("latin1")] for n, v in p["headers"]]}
+                             for p in self.promises]}
